@@ -1,6 +1,8 @@
 import Babble.Props.C02
 import Babble.Props.C10
+import Babble.Props.C01
 import Babble.Proofs.HGFrame
+import Babble.Proofs.HGResetFinal
 /-! # C13 — fast-sync continuity (PARTIAL)
     What is a theorem: a node reset from (block, frame) continues the index sequence from the anchor,
     only appends, and builds its validator-set table from the history shipped with the frame by the
@@ -63,5 +65,65 @@ theorem reset_validators (blk : Block) (fr : Frame) (lookup : String → Option 
 theorem reset_uses_same_table_step (s : St) (rr : Int) (itxs : List (Bool × Nat)) :
     ((s.applyReceipts rr itxs).peerSets, (s.applyReceipts rr itxs).validators) =
       tableStep (s.peerSets, s.validators) (rr, itxs) := Props.C10.applyReceipts_is_tableStep s rr itxs
+
+/-- **any honest node can serve any other** (declarative model, static validator set): two nodes
+    (views `A`, `B` of one fork-free history, in whatever order they received it) that have both
+    decided every round up to `i` put exactly the same events into the frame of round `i` -- each
+    holds every event the other received in that round, and received it in that round too -/
+theorem independent_frames_have_the_same_events {ps : List Nat} {U A B : Dag.E → Prop} (H : Dag.Hist ps U)
+    (hA : Dag.View A U) (hB : Dag.View B U) {k : Nat} (hk : 1 ≤ k) {i : Int}
+    (dA : ∀ j, j ≤ i → Dag.RoundDecided ps A j) (dB : ∀ j, j ≤ i → Dag.RoundDecided ps B j) (e : Dag.E) :
+    (A e ∧ Dag.RoundReceived ps A k e i) ↔ (B e ∧ Dag.RoundReceived ps B k e i) :=
+  ⟨fun h => Props.C01.frames_agree H hA hB hk h.2 (fun j _ hj => dB j hj),
+   fun h => Props.C01.frames_agree H hB hA hk h.2 (fun j _ hj => dA j hj)⟩
+
+/-- **a reset node never revises what it took from the frame**: on a node reset from an anchor block
+    and frame, through any sequence of insertion attempts of fresh events and any continuation, the
+    round, witness flag, Lamport timestamp and round received of a stored event — the values preset
+    from the frame (`InsertFrameEvent`) as well as those computed afterwards — never change once set.
+    (The queue of undetermined events is empty after `Reset`: `resetFrom_undet`.) -/
+theorem reset_node_values_are_final (blk : Block) (fr : Frame) (lookup : String → Option Ev) (es1 es2 : List Ev)
+    (hnd : (idsOf (resetFrom blk fr lookup) ++ (es1 ++ es2).map (·.id)).Nodup)
+    (hrr : ∀ e ∈ es1 ++ es2, e.rr = none) (x : String) (e : Ev)
+    (hx : (runAll (resetFrom blk fr lookup) es1).get x = some e) :
+    ∃ e', (runAll (resetFrom blk fr lookup) (es1 ++ es2)).get x = some e' ∧
+      (e.round.isSome → e'.round = e.round ∧ e'.wit = e.wit) ∧ (e.lamport.isSome → e'.lamport = e.lamport) ∧
+      (e.rr.isSome → e'.rr = e.rr) :=
+  values_final_after_reset blk fr lookup es1 es2 hnd hrr x e hx
+
+theorem reset_node_starts_with_empty_queue (blk : Block) (fr : Frame) (lookup : String → Option Ev) :
+    (resetFrom blk fr lookup).undet = [] := resetFrom_undet blk fr lookup
+
+/-- **`Reset` installs the frame's values and keeps them**: if the events a frame ships have pairwise
+    distinct, non-empty ids, then after the reset and after any sequence of insertion attempts of fresh
+    events the node still holds every frame event with exactly the round, witness flag and Lamport
+    timestamp the serving node wrote into the frame — it never recomputes them from its own (shorter)
+    history -/
+theorem frame_values_installed_and_kept (blk : Block) (fr : Frame) (lookup : String → Option Ev) (es : List Ev)
+    (hsrc : ((frameSources fr lookup).map (·.2.id)).Nodup) (hne : ∀ p ∈ frameSources fr lookup, p.2.id ≠ "")
+    (hnd : (idsOf (resetFrom blk fr lookup) ++ es.map (·.id)).Nodup) (hrr : ∀ e ∈ es, e.rr = none) :
+    ∀ p ∈ frameSources fr lookup, ∃ e', (runAll (resetFrom blk fr lookup) es).get p.2.id = some e' ∧
+      e'.round = some p.1.round ∧ e'.wit = some p.1.witness ∧ e'.lamport = some p.1.lamport := by
+  intro p hp
+  obtain ⟨e0, hg, hr, hw, hl, _⟩ := resetFrom_installed blk fr lookup hsrc hne p hp
+  obtain ⟨e', hg', hr', hl', _⟩ := values_final_after_reset blk fr lookup [] es (by simpa using hnd)
+    (by simpa using hrr) p.2.id e0 hg
+  have h1 := hr' (by rw [hr]; rfl)
+  have h2 := hl' (by rw [hl]; rfl)
+  exact ⟨e', by simpa using hg', h1.1.trans hr, h1.2.trans hw, h2.trans hl⟩
+
+/-- non-vacuity: a frame with a root event and a frame event of another creator meets the hypotheses -/
+example :
+    let fr : Frame := { round := 3, ts := 0, peers := [1, 2],
+                        events := [{ id := "b", round := 3, lamport := 7, witness := true }],
+                        roots := [(1, [{ id := "a", round := 2, lamport := 5, witness := false }])],
+                        peerSets := [(0, [1, 2])] }
+    let lookup : String → Option Ev := fun x =>
+      if x = "a" then some { id := "a", creator := 1, index := 4, sp := "", op := "", ts := 0, key := 1, mid := false }
+      else if x = "b" then some { id := "b", creator := 2, index := 6, sp := "", op := "", ts := 0, key := 2, mid := true }
+      else none
+    ((frameSources fr lookup).map (·.2.id)).Nodup ∧ (∀ p ∈ frameSources fr lookup, p.2.id ≠ "") ∧
+      (frameSources fr lookup).length = 2 := by
+  decide
 
 end Babble.Props.C13
